@@ -263,6 +263,7 @@ fn gen_op(
         /* 22 SetBurst    */ if have_b.is_empty() && have_svg.is_empty() && have_img.is_empty() { 0 } else { 2 },
         /* 23 BlankQr     */ 2,
         /* 24 CallbackPanic */ if sw.faulty && sw.w_svg + sw.w_img > 0 { 6 } else { 0 },
+        /* 25 ChangeBetweenRenders */ if sw.w_svg + sw.w_img > 0 { 4 + sw.w_twin / 3 } else { 0 },
     ];
     let pick_qr = |rng: &mut Rng| -> QrRef {
         if n_shared_q > 0 && (have_q.is_empty() || rng.chance(2, 5)) {
@@ -500,6 +501,7 @@ fn gen_op(
             }
         }
         24 => gen_callback_panic(rng, sw, tg, inputs.len(), ops),
+        25 => gen_change_between_renders(rng, sw, tg, inputs.len(), ops),
         23 => {
             let to = rng.usize_below(N_QR_SLOTS) as u8;
             tg.qrs[to as usize] = true;
@@ -602,6 +604,59 @@ fn gen_callback_panic(rng: &mut Rng, sw: &Swarm, tg: &mut TaskGen, n_inputs: usi
     // and the thread goes on building
     ops.push(plain(Op::BuildFresh { input: rng.usize_below(n_inputs.max(1)) as u8, mode: None, ecl: None, version: None, mask: None, out: 2 }));
     tg.qrs[2] = true;
+}
+
+/// A renderer renders, one option is changed, it renders the same code again - and a freshly
+/// made renderer that gets the final options in one go renders it too. Whatever the first render
+/// left in the renderer must not survive the setter.
+fn gen_change_between_renders(rng: &mut Rng, sw: &Swarm, tg: &mut TaskGen, n_inputs: usize, ops: &mut Vec<OpSpec>) {
+    let is_img = sw.w_img > 0 && (sw.w_svg == 0 || rng.chance(1, 3));
+    let version = *rng.pick(&[1u8, 2, 3, 5]);
+    tg.qrs[0] = true;
+    ops.push(plain(Op::BuildFresh { input: rng.usize_below(n_inputs.max(1)) as u8, mode: None, ecl: Some(0), version: Some(version), mask: None, out: 0 }));
+    // a renderer with several options set, an embedded image more often than not
+    let mut setters: Vec<RSetter> = (0..rng.range(1, 4)).map(|_| gen::gen_rsetter(rng, is_img, is_img, false)).collect();
+    if rng.chance(2, 3) {
+        setters.push(RSetter::Image(if rng.chance(1, 2) { ImageSpec::Png } else { ImageSpec::Svg }));
+    }
+    // the one option that changes between the two renders: any kind, biased to the scalar ones
+    let change = match rng.below(6) {
+        0 => RSetter::Margin(*rng.pick(&[0usize, 1, 3, 6, 9])),
+        1 => RSetter::ImageBgShape(rng.below(3) as u8),
+        2 => RSetter::ModuleColor(gen::gen_color(rng, is_img)),
+        3 => RSetter::BackgroundColor(gen::gen_color(rng, is_img)),
+        _ => gen::gen_rsetter(rng, is_img, is_img, false),
+    };
+    let set = |slot: u8, s: &RSetter| if is_img { Op::ImgSet { slot, s: s.clone() } } else { Op::SvgSet { slot, s: s.clone() } };
+    let render = |slot: u8| -> Op {
+        if is_img {
+            Op::ImgRender { slot, qr: QrRef::Local(0), pixmap: false }
+        } else {
+            Op::SvgRender { slot, qr: QrRef::Local(0) }
+        }
+    };
+    for slot in [0u8, 1u8] {
+        if is_img {
+            tg.imgs[slot as usize] = true;
+            tg.img_has_panicky[slot as usize] = false;
+            ops.push(plain(Op::NewImg { slot }));
+        } else {
+            tg.svgs[slot as usize] = true;
+            tg.svg_has_panicky[slot as usize] = false;
+            ops.push(plain(Op::NewSvg { slot }));
+        }
+    }
+    for s in &setters {
+        ops.push(plain(set(0, s)));
+    }
+    ops.push(plain(render(0)));
+    ops.push(plain(set(0, &change)));
+    ops.push(plain(render(0)));
+    for s in &setters {
+        ops.push(plain(set(1, s)));
+    }
+    ops.push(plain(set(1, &change)));
+    ops.push(plain(render(1)));
 }
 
 fn burst_len(rng: &mut Rng) -> u32 {
